@@ -1,10 +1,13 @@
 import IrVerif.Props.C20
 open IrVerif.Journal
 #print axioms C20_restore
-#print axioms C20_restore_needs_NoReentry
+#print axioms C20_restore_active
+#print axioms C20_reentry_refused
+#print axioms C20_guard_needed
 #print axioms C20_transparent
 #print axioms C20_transparent_from_start
 #print axioms C20_transparent_needs_DetailsOk
+#print axioms C20_transparent_needs_NoReentry
 #print axioms C20_transparent_needs_InitNone
 #print axioms C20_entries
 #print axioms C20_entries_active
